@@ -344,10 +344,13 @@ theorem entitlementLoop_spec {s : Ca} (hnd : (keys s.classes).Nodup) (p : Handle
         ∃ r k, next ≤ r ∧ get s2.classes r = some (Rc.requested p ent.rcn k)) ∧
       -- every new name belongs to one of those
       (∀ r rc', next ≤ r → get s2.classes r = some rc' →
-        ∃ ent ∈ ents, s.findParentRc p ent.rcn = none ∧ ∃ k, rc' = Rc.requested p ent.rcn k) ∧
+        ∃ ent ∈ ents, s.findParentRc p ent.rcn = none ∧ ∃ k ∈ fresh, rc' = Rc.requested p ent.rcn k) ∧
       -- new names are not used twice for one class name
       (∀ r1 r2 rc1 rc2, next ≤ r1 → next ≤ r2 → get s2.classes r1 = some rc1 → get s2.classes r2 = some rc2 →
         rc1.parentRcn = rc2.parentRcn → r1 = r2) ∧
+      -- nor is a new key, if the new keys are pairwise different
+      (fresh.Nodup → ∀ r1 r2 rc1 rc2, next ≤ r1 → next ≤ r2 → get s2.classes r1 = some rc1 →
+        get s2.classes r2 = some rc2 → rc1.keys = rc2.keys → r1 = r2) ∧
       -- everything else is as it was
       (∀ r, r < next → (∀ ent ∈ ents, ∀ rc, s.findParentRc p ent.rcn ≠ some (r, rc)) →
         get s2.classes r = get s1.classes r) ∧
@@ -358,9 +361,10 @@ theorem entitlementLoop_spec {s : Ca} (hnd : (keys s.classes).Nodup) (p : Handle
     intro next fresh evs s1 s2 _ hl ha _ _ hfree
     simp only [entitlementLoop, Except.ok.injEq] at hl; subst hl
     simp only [Ca.applyAll, Option.some.injEq] at ha; subst ha
-    refine ⟨fun _ h => (nomatch h), fun _ h => (nomatch h), ?_, ?_, fun _ _ _ => rfl, rfl⟩
+    refine ⟨fun _ h => (nomatch h), fun _ h => (nomatch h), ?_, ?_, ?_, fun _ _ _ => rfl, rfl⟩
     · intro r rc' hr hg; rw [hfree r hr] at hg; cases hg
     · intro r1 _ rc1 _ hr1 _ hg1; rw [hfree r1 hr1] at hg1; cases hg1
+    · intro _ r1 _ rc1 _ hr1 _ hg1; rw [hfree r1 hr1] at hg1; cases hg1
   | cons ent ents ih =>
     intro next fresh evs s1 s2 hndE hl ha hnext hfound hfree
     have hndE' := List.nodup_cons.mp (by simpa using hndE : (ent.rcn :: ents.map (·.rcn)).Nodup)
@@ -391,7 +395,7 @@ theorem entitlementLoop_spec {s : Ca} (hnd : (keys s.classes).Nodup) (p : Handle
               simp only at h1 h3 h1' h3'
               rw [h1] at h1'; cases h1'
               exact hndE'.1 (List.mem_map.mpr ⟨ent', hent', h3.symm.trans h3'⟩)
-            obtain ⟨iha, ihb, ihc, ihd, ihe, ihf⟩ := ih next fresh rest sm s2 hndE'.2 hrest ha (hm3.trans hnext)
+            obtain ⟨iha, ihb, ihc, ihd, ihd2, ihe, ihf⟩ := ih next fresh rest sm s2 hndE'.2 hrest ha (hm3.trans hnext)
               (by
                 intro ent' hent' r' rc' hf'
                 obtain ⟨h1, h2⟩ := hfound ent' (List.mem_cons_of_mem _ hent') r' rc' hf'
@@ -400,7 +404,7 @@ theorem entitlementLoop_spec {s : Ca} (hnd : (keys s.classes).Nodup) (p : Handle
                 intro r hr
                 have hne : r ≠ rcn := by intro h; subst h; exact absurd hlt (Nat.not_lt.mpr hr)
                 rw [hm2 r hne]; exact hfree r hr)
-            refine ⟨?_, ?_, ?_, ihd, ?_, ihf.trans hm4⟩
+            refine ⟨?_, ?_, ?_, ihd, ihd2, ?_, ihf.trans hm4⟩
             · intro ent' hent' r' rc' hf'
               rcases List.mem_cons.mp hent' with rfl | hent'
               · rw [hf] at hf'; cases hf'
@@ -445,7 +449,7 @@ theorem entitlementLoop_spec {s : Ca} (hnd : (keys s.classes).Nodup) (p : Handle
               have hfl : ∀ ent' ∈ ents, ∀ r' rc', s.findParentRc p ent'.rcn = some (r', rc') →
                   get s1.classes r' = some rc' ∧ r' < next :=
                 fun ent' hent' => hfound ent' (List.mem_cons_of_mem _ hent')
-              obtain ⟨iha, ihb, ihc, ihd, ihe, ihf⟩ := ih (next + 1) fresh' rest sm s2 hndE'.2 hrest ha
+              obtain ⟨iha, ihb, ihc, ihd, ihd2, ihe, ihf⟩ := ih (next + 1) fresh' rest sm s2 hndE'.2 hrest ha
                 (by rw [hm3]; show s1.nextClass + 1 = next + 1; rw [hnext])
                 (by
                   intro ent' hent' r' rc' hf'
@@ -464,7 +468,7 @@ theorem entitlementLoop_spec {s : Ca} (hnd : (keys s.classes).Nodup) (p : Handle
                 rw [ihe next (by omegan) (fun ent' hent' rc' hf' => by
                   exact absurd (hfl ent' hent' next rc' hf').2 (Nat.lt_irrefl _))]
                 exact hm1
-              refine ⟨?_, ?_, ?_, ?_, ?_, ihf.trans hm4⟩
+              refine ⟨?_, ?_, ?_, ?_, ?_, ?_, ihf.trans hm4⟩
               · intro ent' hent' r' rc' hf'
                 rcases List.mem_cons.mp hent' with rfl | hent'
                 · rw [hf] at hf'; cases hf'
@@ -478,9 +482,9 @@ theorem entitlementLoop_spec {s : Ca} (hnd : (keys s.classes).Nodup) (p : Handle
                 by_cases hrn : r = next
                 · subst hrn
                   rw [hnew] at hg; cases hg
-                  exact ⟨ent, List.mem_cons_self .., hf, k, rfl⟩
-                · obtain ⟨ent', hent', h1, h2⟩ := ihc r rc' (by omegan) hg
-                  exact ⟨ent', List.mem_cons_of_mem _ hent', h1, h2⟩
+                  exact ⟨ent, List.mem_cons_self .., hf, k, List.mem_cons_self .., rfl⟩
+                · obtain ⟨ent', hent', h1, k', hk', h2⟩ := ihc r rc' (by omegan) hg
+                  exact ⟨ent', List.mem_cons_of_mem _ hent', h1, k', List.mem_cons_of_mem _ hk', h2⟩
               · intro r1 r2 rc1 rc2 hr1 hr2 hg1 hg2 hname
                 by_cases h1n : r1 = next
                 · by_cases h2n : r2 = next
@@ -488,7 +492,7 @@ theorem entitlementLoop_spec {s : Ca} (hnd : (keys s.classes).Nodup) (p : Handle
                   · exfalso
                     subst h1n
                     rw [hnew] at hg1; cases hg1
-                    obtain ⟨ent', hent', _, k', h2⟩ := ihc r2 rc2 (by omegan) hg2
+                    obtain ⟨ent', hent', _, k', _, h2⟩ := ihc r2 rc2 (by omegan) hg2
                     subst h2
                     simp only [Rc.requested] at hname
                     exact hndE'.1 (List.mem_map.mpr ⟨ent', hent', hname.symm⟩)
@@ -496,11 +500,32 @@ theorem entitlementLoop_spec {s : Ca} (hnd : (keys s.classes).Nodup) (p : Handle
                   · exfalso
                     subst h2n
                     rw [hnew] at hg2; cases hg2
-                    obtain ⟨ent', hent', _, k', h2⟩ := ihc r1 rc1 (by omegan) hg1
+                    obtain ⟨ent', hent', _, k', _, h2⟩ := ihc r1 rc1 (by omegan) hg1
                     subst h2
                     simp only [Rc.requested] at hname
                     exact hndE'.1 (List.mem_map.mpr ⟨ent', hent', hname⟩)
                   · exact ihd r1 r2 rc1 rc2 (by omegan) (by omegan) hg1 hg2 hname
+              · intro hndF r1 r2 rc1 rc2 hr1 hr2 hg1 hg2 hkeys
+                have hndF' := List.nodup_cons.mp hndF
+                by_cases h1n : r1 = next
+                · by_cases h2n : r2 = next
+                  · rw [h1n, h2n]
+                  · exfalso
+                    subst h1n
+                    rw [hnew] at hg1; cases hg1
+                    obtain ⟨ent', _, _, k', hk', h2⟩ := ihc r2 rc2 (by omegan) hg2
+                    subst h2
+                    simp only [Rc.requested, KeyState.pending.injEq, PendKey.mk.injEq, and_true] at hkeys
+                    exact hndF'.1 (hkeys ▸ hk')
+                · by_cases h2n : r2 = next
+                  · exfalso
+                    subst h2n
+                    rw [hnew] at hg2; cases hg2
+                    obtain ⟨ent', _, _, k', hk', h2⟩ := ihc r1 rc1 (by omegan) hg1
+                    subst h2
+                    simp only [Rc.requested, KeyState.pending.injEq, PendKey.mk.injEq, and_true] at hkeys
+                    exact hndF'.1 (hkeys ▸ hk')
+                  · exact ihd2 hndF'.2 r1 r2 rc1 rc2 (by omegan) (by omegan) hg1 hg2 hkeys
               · intro r hr hnf
                 rw [ihe r (by omegan) (fun ent' hent' => hnf ent' (List.mem_cons_of_mem _ hent'))]
                 rw [hm2 r (by omegan)]
@@ -508,7 +533,8 @@ theorem entitlementLoop_spec {s : Ca} (hnd : (keys s.classes).Nodup) (p : Handle
                 exact get_set_ne _ _ (by omegan)
 
 /-- Where a class of the state after `UpdateEntitlements` comes from. -/
-inductive EntOrigin (s : Ca) (p : Handle) (ents : List Entitlement) (now : Int) (r : Rcn) (rc' : Rc) : Prop where
+inductive EntOrigin (s : Ca) (p : Handle) (ents : List Entitlement) (now : Int) (fresh : List KeyId)
+    (r : Rcn) (rc' : Rc) : Prop where
   /-- a class under another parent, untouched -/
   | other (rc : Rc) (hg : get s.classes r = some rc) (hp : rc.parent ≠ p) (heq : rc' = rc)
   /-- a class under the parent that is still listed: the requests are made -/
@@ -517,7 +543,7 @@ inductive EntOrigin (s : Ca) (p : Handle) (ents : List Entitlement) (now : Int) 
       (heq : rc' = { rc with keys := rc.keys.requestedFor ent now })
   /-- a class created for a new entitlement -/
   | created (ent : Entitlement) (k : KeyId) (hent : ent ∈ ents) (hf : s.findParentRc p ent.rcn = none)
-      (hr : s.nextClass ≤ r) (heq : rc' = Rc.requested p ent.rcn k)
+      (hr : s.nextClass ≤ r) (hk : k ∈ fresh) (heq : rc' = Rc.requested p ent.rcn k)
 
 /-- `UpdateEntitlements` in a reachable CA with a repository, pairwise different class names
 under the parent and in the list, and enough new keys: the command is stored; the classes under
@@ -528,8 +554,10 @@ theorem updEnt_spec {s : Sys} (hr : Reachable s) (hrepo : s.ca.hasRepo = true) (
     (now : Int) (fresh : List KeyId) (hlen : (newEntitlements s.ca p ents).length ≤ fresh.length) :
     ∃ s', s.next (.updateEntitlements p ents now fresh) = s' ∧
       Reachable s' ∧ s'.ca.hasRepo = true ∧ NoLimits s'.ca ∧ UniqueNames s'.ca p ∧
-      (∀ r rc', get s'.ca.classes r = some rc' → EntOrigin s.ca p ents now r rc') ∧
-      (∀ ent ∈ ents, ∃ r rc', get s'.ca.classes r = some rc' ∧ rc'.parent = p ∧ rc'.parentRcn = ent.rcn) := by
+      (∀ r rc', get s'.ca.classes r = some rc' → EntOrigin s.ca p ents now fresh r rc') ∧
+      (∀ ent ∈ ents, ∃ r rc', get s'.ca.classes r = some rc' ∧ rc'.parent = p ∧ rc'.parentRcn = ent.rcn) ∧
+      (fresh.Nodup → ∀ r1 r2 rc1 rc2, s.ca.nextClass ≤ r1 → s.ca.nextClass ≤ r2 → get s'.ca.classes r1 = some rc1 →
+        get s'.ca.classes r2 = some rc2 → rc1.keys = rc2.keys → r1 = r2) := by
   have hinv := reachable_inv hr
   have hnd := hinv.core.nodup
   have hfr := hinv.core.fresh
@@ -567,7 +595,7 @@ theorem updEnt_spec {s : Sys} (hr : Reachable s) (hrepo : s.ca.hasRepo = true) (
       cases hc : (ents.map (·.rcn)).contains rc.parentRcn with
       | false => rfl
       | true => exact absurd (List.contains_iff_mem.mp hc) hp2
-  obtain ⟨ha, hb, hc, hd, he, hf⟩ := entitlementLoop_spec hnd p now ents s.ca.nextClass fresh evs _ s'.ca hndE hloop happ rfl
+  obtain ⟨ha, hb, hc, hd, hd2, he, hf⟩ := entitlementLoop_spec hnd p now ents s.ca.nextClass fresh evs _ s'.ca hndE hloop happ rfl
     (by
       intro ent hent r rc hfnd
       obtain ⟨h1, h2, h3⟩ := findParentRc_some hnd hfnd
@@ -591,7 +619,7 @@ theorem updEnt_spec {s : Sys} (hr : Reachable s) (hrepo : s.ca.hasRepo = true) (
           have := hfr r (by rw [hg]; rfl)
           exact absurd this (Nat.not_lt.mpr hr0))
   -- where a class of the new state comes from
-  have horigin : ∀ r rc', get s'.ca.classes r = some rc' → EntOrigin s.ca p ents now r rc' := by
+  have horigin : ∀ r rc', get s'.ca.classes r = some rc' → EntOrigin s.ca p ents now fresh r rc' := by
     intro r rc' hg'
     by_cases hlt : r < s.ca.nextClass
     · by_cases hex : ∃ ent ∈ ents, ∃ rc, s.ca.findParentRc p ent.rcn = some (r, rc)
@@ -617,21 +645,21 @@ theorem updEnt_spec {s : Sys} (hr : Reachable s) (hrepo : s.ca.hasRepo = true) (
             · exact hnin ((hrem r).mpr ⟨rc', hg', hpar, hmem⟩)
           · exact .other rc' hg' hpar rfl
     · have hge : s.ca.nextClass ≤ r := Nat.le_of_not_lt hlt
-      obtain ⟨ent, hent, hfn, k, heq⟩ := hc r rc' hge hg'
-      exact .created ent k hent hfn hge heq
-  refine ⟨by rw [hf]; exact hrepo, ?_, ?_, horigin, ?_⟩
+      obtain ⟨ent, hent, hfn, k, hk, heq⟩ := hc r rc' hge hg'
+      exact .created ent k hent hfn hge hk heq
+  refine ⟨by rw [hf]; exact hrepo, ?_, ?_, horigin, ?_, hd2⟩
   · -- no limits
     intro r rc' hg'
-    rcases horigin r rc' hg' with ⟨rc, hg, _, heq⟩ | ⟨rc, ent, hg, _, _, _, heq⟩ | ⟨ent, k, _, _, _, heq⟩
+    rcases horigin r rc' hg' with ⟨rc, hg, _, heq⟩ | ⟨rc, ent, hg, _, _, _, heq⟩ | ⟨ent, k, _, _, _, _, heq⟩
     · rw [heq]; exact hnl r rc hg
     · rw [heq]; exact hnl r rc hg
     · rw [heq]; intro e he; simp [Rc.requested] at he
   · -- class names stay pairwise different
     intro r1 r2 rc1 rc2 hg1 hg2 hp1 hp2 hname
-    rcases horigin r1 rc1 hg1 with ⟨rc, hg, hpp, heq⟩ | ⟨rc, ent, hg, hpp, hent, hn1, heq⟩ | ⟨ent, k, hent, hfn, hge, heq⟩
+    rcases horigin r1 rc1 hg1 with ⟨rc, hg, hpp, heq⟩ | ⟨rc, ent, hg, hpp, hent, hn1, heq⟩ | ⟨ent, k, hent, hfn, hge, _, heq⟩
     · subst heq; exact absurd hp1 hpp
     · rcases horigin r2 rc2 hg2 with ⟨rc0, hg0, hpp0, heq0⟩ | ⟨rc0, ent0, hg0, hpp0, hent0, hn0, heq0⟩ |
-          ⟨ent0, k0, hent0, hfn0, hge0, heq0⟩
+          ⟨ent0, k0, hent0, hfn0, hge0, _, heq0⟩
       · subst heq0; exact absurd hp2 hpp0
       · subst heq heq0
         exact hu r1 r2 rc rc0 hg hg0 hpp hpp0 hname
@@ -639,7 +667,7 @@ theorem updEnt_spec {s : Sys} (hr : Reachable s) (hrepo : s.ca.hasRepo = true) (
         simp only [Rc.requested] at hname
         exact absurd hname (findParentRc_none hfn0 hg hpp)
     · rcases horigin r2 rc2 hg2 with ⟨rc0, hg0, hpp0, heq0⟩ | ⟨rc0, ent0, hg0, hpp0, hent0, hn0, heq0⟩ |
-          ⟨ent0, k0, hent0, hfn0, hge0, heq0⟩
+          ⟨ent0, k0, hent0, hfn0, hge0, _, heq0⟩
       · subst heq0; exact absurd hp2 hpp0
       · subst heq heq0
         simp only [Rc.requested] at hname
